@@ -759,6 +759,8 @@ def run(ctx: Ctx) -> None:
     _c12.r12_6(ctx, rule="R04.11")  # testzip must give its verdict for stream archives too
     from . import c06 as _c06x
     _c06x.dispatch_forwards_skip(ctx, "R04.10")
+    from . import c05 as _c05x
+    _c05x.countdown_by_delivered(ctx, shared.read_closure(ctx), "R04.19")  # an intact archive is not called damaged because a read came back short
     _c06x.r06_3(ctx)  # the flag Header._read keys the packed header's CRC comparison on is set wherever the folder CRC is stored
     from . import c09 as _c09x
     _c09x.r09_4(ctx)  # testzip registers no targets: a folder skipped although skip_notarget is off is a folder certified unread
